@@ -25,7 +25,8 @@ Open Scope Z_scope.
      - a focus item with >= 1 row has a row in the slice;
      - the cursor row of the focus item is in the slice, exactly at the canvas cursor.
    Hypotheses forced by the proof and stated explicitly: heights >= 0, maxrow >= 1, the cursor row
-   reported by the focus widget lies inside it, and no focus change is pending (see below). *)
+   reported by the focus widget lies inside it; view_ok itself is about a list box with no focus
+   request pending, render_never_raises covers pending requests. *)
 Theorem view_ok :
   forall its f o n d maxrow fflag w,
     StateOK its o n d maxrow -> nthz its f = Some w -> cursor_ok w ->
@@ -118,44 +119,49 @@ Theorem mouse_press_focuses :
 Proof. exact mouse_press_focuses_lemma. Qed.
 Print Assumptions mouse_press_focuses.
 
-(* --- renders that have to complete a pending focus request first ("first selectable" of a fresh
-   list box, set_focus): after ANY history, with the widgets present at that time satisfying
-   WidgetsOK (heights >= 0, cursor rows inside their widgets) and the pending request - if any -
-   naming positions that still exist (PendOK), render does not raise, leaves no request pending, does
-   not touch the walker contents, and shows a window with all the clauses of view_ok for the state
-   it leaves (ShowsWindow).  PendOK holds for a fresh list box and after every set_focus; only a
-   walker edit can destroy it.  --- *)
+(* --- the history clause at full strength.  After ANY history, with the widgets present at that
+   time satisfying WidgetsOK (heights >= 0, cursor rows inside their widgets), render - including
+   the completion of a pending "first selectable" or set_focus request, also when the old focus
+   position of that request was removed from the walker meanwhile or the list was emptied - does
+   not raise, leaves no request pending, does not touch the walker contents, and shows a window
+   with all the clauses of view_ok for the state it leaves (ShowsWindow).
+   No premise about the pending request is needed any more: before the repair 93ada30 of
+   _set_focus_complete this statement was refuted in model and code for stale requests
+   (set_focus, delete the old position, render -> IndexError); corpus/C07/stale_pending.json and
+   corpus/C07/repro_stale_pending_set_focus.py keep that history as a regression case. --- *)
 Theorem render_never_raises_any_history :
   forall ops s s' out maxrow fflag,
     ViewOK s -> Forall op_ok ops -> In (Ok (s', out)) (run s ops) ->
-    WidgetsOK (items s') -> 1 <= maxrow -> PendOK s' ->
+    WidgetsOK (items s') -> 1 <= maxrow ->
     exists s'' win cur,
       render s' maxrow fflag = Ok (s'', (win, cur)) /\
       pend s'' = PNone /\ items s'' = items s' /\ ViewOK s'' /\ ShowsWindow s'' maxrow fflag win cur.
 Proof. exact render_any_history_lemma. Qed.
 Print Assumptions render_never_raises_any_history.
 
-Theorem pending_requests_start_valid :
-  (forall s position cf s', set_focus s position cf = Ok s' -> PendOK s') /\
-  (forall its f o n d, PendOK {| items := its; focus := f; off := o; inum := n; iden := d; pend := PFirst |}).
-Proof. split; [exact set_focus_pend_ok | exact fresh_pend_ok]. Qed.
-Print Assumptions pending_requests_start_valid.
+(* the same for a single state: any ViewOK state with any pending request *)
+Theorem render_never_raises :
+  forall s maxrow fflag,
+    ViewOK s -> WidgetsOK (items s) -> 1 <= maxrow ->
+    exists s' win cur,
+      render s maxrow fflag = Ok (s', (win, cur)) /\
+      pend s' = PNone /\ items s' = items s /\ ViewOK s' /\ ShowsWindow s' maxrow fflag win cur.
+Proof. exact render_ok_lemma. Qed.
+Print Assumptions render_never_raises.
 
-(* --- WITHOUT the premise PendOK the statement is FALSE of the model and of the implementation:
-   with a pending set_focus whose old position no longer exists render raises
-   [render_with_stale_pending_refuted]; the witness is replayed on the implementation by
-   corpus/C07/stale_pending.json (render raises IndexError; known finding
-   C07-stale-pending-set-focus). --- *)
-Definition render_any_history_full : Prop :=
-  forall ops s s' out maxrow fflag,
-    ViewOK s -> Forall op_ok ops -> In (Ok (s', out)) (run s ops) ->
-    heights_ok (items s') -> 1 <= maxrow ->
-    (forall w, In w (items s') -> cursor_ok w) ->
-    exists s'' win cur, render s' maxrow fflag = Ok (s'', (win, cur)).
-
-Theorem render_with_stale_pending_refuted : ~ render_any_history_full.
-Proof. exact stale_pending_refutes. Qed.
-Print Assumptions render_with_stale_pending_refuted.
+(* the formerly refuted history now renders (5 one-row items, focus 4; set_focus(0); the walker
+   keeps 2 items; render) *)
+Example stale_pending_now_renders :
+  let it := {| i_rows := 1; i_sel := true; i_cy := None |} in
+  let s := {| items := [it; it; it; it; it]; focus := 4; off := 0; inum := 0; iden := 1; pend := PNone |} in
+  map (fun r => match r with
+                | Ok (s, OutView rows _) => (focus s, rows)
+                | Ok (s, _) => (focus s, [])
+                | Err _ => (-9, [])
+                end)
+      (run s [OSetFocus 0 CNone; OItems [it; it] 0; ORender 3 true])
+  = [(0, []); (0, []); (0, [(0, 0); (1, 0); (-1, -1)])].
+Proof. vm_compute. reflexivity. Qed.
 
 (* --- non-vacuity: the hypotheses are met by ordinary states and the model computes --- *)
 Definition ex_items : list item :=
